@@ -31,13 +31,15 @@ THEOREMS = [
     "C09.reverseOrderOk_iff",
     "C09.populate_order",
     "C09.involutive_flags_counterexample",
+    "C09.involutive_index_counterexample",
     "C09.involutive_partial",
     "C09.undo_leaf_partial",
     "C09.undo_all_partial",
 ]
 PARTIAL = {
     "C09.involutive_partial": "full statement C09.involutive_statement is false on the current tree: reverse() rebuilds ops from the "
-    "schema object, so if_exists/if_not_exists and add/drop-column kw are lost (F13, open); hypothesis `clean o` excludes those "
+    "schema object, so if_exists/if_not_exists and add/drop-column kw are lost (F13, open) and the indexes a directly built "
+    "CreateTableOp derives from Column(index=True) are lost (F15, open; autogenerate's from_table ops have none); hypothesis `clean o` excludes those "
     "(plus representation conditions: primary-key ops carry dialect kwargs only, create_table_comment has a comment). Renames (F11) "
     "and explicit deferrable/initially (F14) are fixed in /repo and covered by the theorem",
     "C09.undo_leaf_partial": "apply (reverse o) (apply o S) = S for every leaf op kind incl. renames on the abstract schema semantics, "
@@ -72,6 +74,7 @@ FINDING_OF = {
     "if_exists": "C09-F13",
     "if_not_exists": "C09-F13",
     "column_kw": "C09-F13",
+    "column_index_flag": "C09-F15",
 }
 
 
@@ -342,6 +345,8 @@ def _witness_op(w):
         return ops.CreateIndexOp("ix", "t", ["a"], if_not_exists=True)
     if kind == "unique_not_deferrable":
         return ops.CreateUniqueConstraintOp("uq", "t", ["a"], deferrable=False)
+    if kind == "create_table_index_flag":
+        return ops.CreateTableOp("t", [sa.Column("id", sa.Integer, primary_key=True), sa.Column("email", sa.String(50), index=True)])
     raise ValueError(kind)
 
 
@@ -362,8 +367,9 @@ def classify(failure):
     ids = {FINDING_OF.get(t) for t in tags}
     if None in ids:
         return None
-    # several known attributes on one op: attribute to the first (all must be listed findings)
-    return sorted(ids)[0] if len(ids) == 1 else None
+    # several known-lossy attributes on one op (e.g. if_not_exists and an index=True flag): every one of them
+    # maps to a listed open finding and the failure disappears when all are stripped -> attribute to the first
+    return sorted(ids)[0]
 
 
 def replay(ctx, case):
